@@ -514,6 +514,8 @@ class Polyline:
             if signs_of_verts[-1] == 1:
                 # e.g. signs_of_verts = np.array([1, -1, -1, 1, 1, 1, 1])
                 (vertices_not_in_front,) = np.where(signs_of_verts != 1)
+                if len(vertices_not_in_front) == 0:
+                    raise ValueError("Polyline lies entirely in front of the plane")
                 roll = -vertices_not_in_front[-1]
             else:
                 # e.g. signs_of_verts = np.array([-1, 1, 1, 1, 1, 1, -1, -1])
@@ -523,6 +525,9 @@ class Polyline:
                 else:
                     roll = 0
             working_v = np.roll(self.v, roll, axis=0)
+            # Close the loop explicitly: when only one vertex is not in front,
+            # the run in front leaves through the same vertex it entered from.
+            working_v = np.vstack([working_v, working_v[:1]])
         else:
             working_v = self.v
 
